@@ -42,6 +42,7 @@ from lv.harness.envs import make_env
 from lv.harness.envs import run_coro
 
 from liquid2 import DictLoader
+from liquid2.builtin.loaders.mixins import CachingLoaderMixin
 from liquid2.exceptions import LiquidError
 from liquid2.exceptions import TemplateNotFoundError
 from liquid2.loader import TemplateSource
@@ -174,6 +175,12 @@ class MatterLoader(DictLoader):
         except KeyError as err:
             raise TemplateNotFoundError(template_name) from err
         return TemplateSource(source, template_name, None, self.matter.get(template_name))
+
+
+class CachingMatterLoader(CachingLoaderMixin, MatterLoader):
+    def __init__(self, templates: dict[str, str], matter: dict[str, Any]) -> None:
+        CachingLoaderMixin.__init__(self, auto_reload=True, capacity=10)
+        MatterLoader.__init__(self, templates, matter)
 
 
 # --------------------------------------------------------------------------- generators (a)
@@ -537,7 +544,9 @@ class C10(Prop):
                 for kind in kinds:
                     insides = [False, True] if ("block" in layers and "local" in layers) else [False]
                     for inside in insides:
-                        for route in ("string", "loader"):
+                        for route in ("string", "loader", "cache-hit"):
+                            if route == "cache-hit" and (name != "x" or kind not in (None, "with")):
+                                continue  # the second load from a caching loader that supplies matter
                             for bare in (False, True):
                                 for mode in ("sync", "async"):
                                     yield {"kind": "prec", "name": name, "layers": layers, "block": kind,
@@ -700,10 +709,20 @@ class C10(Prop):
         eglobal, tglobal, matter, arg = mapping("eglobal"), mapping("tglobal"), mapping("matter"), mapping("arg")
         all_templates = dict(templates)
         all_templates["main"] = src
-        env = make_env(shopify=True, globals=eglobal, loader=MatterLoader(all_templates, {"main": matter}))
+        loader_cls = CachingMatterLoader if case["route"] == "cache-hit" else MatterLoader
+        env = make_env(shopify=True, globals=eglobal, loader=loader_cls(all_templates, {"main": matter}))
         is_async = case["mode"] == "async"
         try:
-            if case["route"] == "loader":
+            if case["route"] == "cache-hit":
+                # other callers load the page first (no globals, other globals); this call is a cache hit
+                env.get_template("main")
+                if is_async:
+                    run_coro(env.get_template_async("main", globals={"other": 1}))
+                    tmpl = run_coro(env.get_template_async("main", globals=tglobal))
+                else:
+                    env.get_template("main", globals={"other": 1})
+                    tmpl = env.get_template("main", globals=tglobal)
+            elif case["route"] == "loader":
                 if is_async:
                     tmpl = run_coro(env.get_template_async("main", globals=tglobal))
                 else:
